@@ -646,6 +646,28 @@ def c05(ctx):
                 if not (isinstance(sv, float) and isinstance(pv, float) and core.close(sv, pv)):
                     ctx.violate("%s: MRTS='auto' with indices: scalar != average of the profile" % name, name + "_distance",
                                 [TL, sel, repr(ivf)], expected=pv, got=sv)
+        # several averaging windows at once (a list of intervals): the time average over their union with repetitions,
+        # i.e. the length-weighted mean of the single-window values (which the correspondence ties to the model), through
+        # the two-train form, the list form and the multivariate form; windows of unequal length, possibly overlapping
+        pts = sorted(r.sample([Fr(i, 2 * g) for i in range(2 * g + 1)], 4))
+        wins = r.choice([[(pts[0], pts[1]), (pts[2], pts[3])], [(pts[0], pts[2]), (pts[1], pts[3])],
+                         [(pts[2], pts[3]), (pts[0], pts[1]), (pts[0], pts[3])]])
+        wf = [(float(a_), float(b_)) for a_, b_ in wins]
+        for name, fs, kw in (("isi", ctx.ps.isi_distance, {"MRTS": float(m)}),
+                             ("spike", ctx.ps.spike_distance, {"MRTS": float(m), "RI": ri})):
+            for form, call in (("multi", lambda iv_: fs(sts, interval=iv_, **kw)),
+                               ("two", lambda iv_: fs(sts[0], sts[1], interval=iv_, **kw)),
+                               ("pair-list", lambda iv_: fs([sts[0], sts[1]], interval=iv_, **kw))):
+                whole = core.call_impl(lambda: q(lambda: call(list(wf))))
+                parts = [core.call_impl(lambda: q(lambda: call(w_))) for w_ in wf]
+                ctx.check()
+                if all(isinstance(x_, float) for x_ in parts):
+                    want = sum(x_ * (w_[1] - w_[0]) for x_, w_ in zip(parts, wf)) / sum(w_[1] - w_[0] for w_ in wf)
+                    ctx.nontrivial(("c05wins", name, form, core.enc(TL), repr(wf)))
+                    if not (isinstance(whole, float) and core.close(whole, want)):
+                        ctx.violate("%s (%s form): the value over a list of windows != length-weighted mean of the "
+                                    "single-window values" % (name, form), name + "_distance", [TL, repr(wf), repr(kw)],
+                                    expected=want, got=whole)
         sv = core.call_impl(lambda: ctx.ps.spike_train_order(sts, MRTS='auto', max_tau=float(mt)))
         pv = core.call_impl(lambda: ctx.ps.spike_train_order_profile(sts, MRTS='auto', max_tau=float(mt)).avrg())
         ctx.check()
@@ -890,6 +912,23 @@ def c06(ctx):
             if not (isinstance(D, float) and all(isinstance(d, float) for d in ds) and core.close(D, sum(ds) / len(ds))):
                 ctx.violate("%s multi distance over an interval != mean of pair distances" % what, str(rid_d), args_d,
                             expected=ds, got=D, rid=rid_d)
+        # ... and over a LIST of windows (unequal lengths, possibly overlapping): still the mean of the pair distances
+        # over the same list, and the average of the multivariate profile over it
+        wp = sorted(r.sample([Fr(i, 2 * gg) for i in range(2 * gg + 1)], 4))
+        wl = [(float(a_), float(b_)) for a_, b_ in r.choice([[(wp[0], wp[1]), (wp[2], wp[3])], [(wp[0], wp[2]), (wp[1], wp[3])]])]
+        stw = ctx.impl.trains(TL)
+        qw = ctx.impl._quiet
+        for name, f, fp_, kw in (("isi", ctx.ps.isi_distance, ctx.ps.isi_profile, {"MRTS": float(m)}),
+                                ("spike", ctx.ps.spike_distance, ctx.ps.spike_profile, {"MRTS": float(m), "RI": ri})):
+            Dw = core.call_impl(lambda: qw(lambda: float(f(stw, interval=list(wl), **kw))))
+            dsw = [core.call_impl(lambda: qw(lambda: float(f(stw[i], stw[j], interval=list(wl), **kw)))) for i, j in prs]
+            Pw = core.call_impl(lambda: qw(lambda: float(fp_(stw, **kw).avrg(list(wl)))))
+            ctx.check()
+            ctx.nontrivial(("c06wins", name, core.enc(TL), repr(wl)))
+            if not (isinstance(Dw, float) and isinstance(Pw, float) and all(isinstance(d, float) for d in dsw)
+                    and core.close(Dw, sum(dsw) / len(dsw)) and core.close(Dw, Pw)):
+                ctx.violate("%s multi distance over a list of windows != mean of the pair distances / != profile average"
+                            % name, name + "_distance", [TL, repr(wl), repr(kw)], expected=[dsw, Pw], got=Dw)
         M = ctx.call(69, [False, mt, m, iv, TL, None])
         ctx.check()
         okM = not isinstance(M, core.Err)
@@ -1049,6 +1088,32 @@ def c07(ctx):
                     elif abs(v - ident) > 1e-12:
                         ctx.violate("%s matrix diagonal" % nm, str(rid), args, expected=ident, got=v, rid=rid)
                         break
+
+        # the multivariate VALUES of a selection: a pair selected out of the list (`indices=[i, j]`) has the value of that
+        # pair, the same position twice (`indices=[k, k]`: a train with itself) and an equal copy at another position are
+        # at the identity value; every selection stays within [0,1] (model: Lem_API7.v, mean of the selected pairs)
+        k_ = r.randrange(n)
+        for sel2 in ([k_, k_], [0, n - 1], [n - 1, 0], r.sample(range(n), 2), [k_, k_, (k_ + 1) % n]):
+            ns2 = [Nat(i) for i in sel2]
+            for nm, rid, args, rid_b, mk, ident in (
+                    ("isi", 64, [False, m, iv, TL, ns2], 54, lambda a, b: [False, m, iv, a, b], 0.0),
+                    ("spike", 65, [False, m, ri, iv, TL, ns2], 55, lambda a, b: [False, m, ri, iv, a, b], 0.0),
+                    ("sync", 66, [False, mt, m, iv, TL, ns2], 56, lambda a, b: [False, mt, m, iv, a, b], 1.0)):
+                v = ctx.call(rid, args)
+                ctx.check()
+                ctx.nontrivial(("c07sel", rid, core.enc(args)))
+                if not (isinstance(v, float) and core.all_finite(v) and -1e-12 <= v <= 1 + 1e-12):
+                    ctx.violate("%s of the selection %r outside [0,1] / not finite / raises" % (nm, sel2), str(rid), args,
+                                got=v, rid=rid)
+                    continue
+                if len(sel2) == 2:
+                    d = ctx.call(rid_b, mk(TL[sel2[0]], TL[sel2[1]]))
+                    if not (isinstance(d, float) and core.close(v, d)):
+                        ctx.violate("%s of indices=%r != value of the selected pair" % (nm, sel2), str(rid), args,
+                                    expected=d, got=v, rid=rid)
+                    elif L[sel2[0]] == L[sel2[1]] and abs(v - ident) > 1e-12:
+                        ctx.violate("%s of a train selected together with itself / an equal copy != identity value" % nm,
+                                    str(rid), args, expected=ident, got=v, rid=rid)
 
 
 # ---------------------------------------------------------------------------
@@ -1810,6 +1875,60 @@ def c11(ctx):
         if not feq(res[0], res[1], 1e-12):
             ctx.violate("DiscreteFunc.add with integer-typed event times differs from the float-typed twin", "df.add",
                         [repr(a_), repr(b_)], expected=res[1], got=res[0])
+    # histories over several objects: add / mul_scalar / copy in any order; after EVERY step every live object (the
+    # receivers, the operands that were added, the copies and the originals they were taken from) still holds exactly
+    # its own events - the reference keeps one dictionary time -> (value, multiplicity) per object
+    for _ in range(ctx.n(80 if ctx.tier == "quick" else 1000)):
+        def mkobj():
+            k_ = r.randint(0, 4)
+            ts_ = sorted(r.sample(range(1, 16), k_))
+            ev = {Fr(t_, 16): [Fr(r.choice([0, 1, 1, 2, 3]), 1), Fr(r.choice([1, 2, 3]))] for t_ in ts_}
+            xs_ = [0.0] + [float(t_) for t_ in sorted(ev)] + [1.0]
+            ys_ = [float(ev[t_][0]) for t_ in sorted(ev)]
+            ms_ = [float(ev[t_][1]) for t_ in sorted(ev)]
+            ys_ = ([ys_[0]] + ys_ + [ys_[-1]]) if ys_ else [0.0, 0.0]
+            ms_ = ([ms_[0]] + ms_ + [ms_[-1]]) if ms_ else [1.0, 1.0]
+            return DF(np.array(xs_), np.array(ys_), np.array(ms_)), ev
+        objs = [mkobj() for _ in range(r.randint(2, 3))]
+        log = []
+        for step in range(r.randint(3, 7)):
+            op = r.choice(["add", "add", "mul", "copy", "copy"])
+            i_ = r.randrange(len(objs))
+            if op == "add":
+                j_ = r.randrange(len(objs))
+                if j_ == i_:
+                    continue
+                err = core.call_impl(lambda: qq(lambda: objs[i_][0].add(objs[j_][0])))
+                for t_, (v_, m_) in objs[j_][1].items():
+                    cur = objs[i_][1].setdefault(t_, [Fr(0), Fr(0)])
+                    objs[i_][1][t_] = [cur[0] + v_, cur[1] + m_]
+                log.append("%d.add(%d)" % (i_, j_))
+            elif op == "mul":
+                fac = r.choice([2.0, 0.5, 3.0])
+                err = core.call_impl(lambda: qq(lambda: objs[i_][0].mul_scalar(fac)))
+                for t_ in objs[i_][1]:
+                    objs[i_][1][t_][0] *= Fr(fac)
+                log.append("%d.mul_scalar(%r)" % (i_, fac))
+            else:
+                err = None
+                objs.append((objs[i_][0].copy(), {t_: list(v_) for t_, v_ in objs[i_][1].items()}))
+                log.append("%d = %d.copy()" % (len(objs) - 1, i_))
+            ctx.check()
+            bad = None
+            if isinstance(err, core.Err):
+                bad = ("raises", err)
+            for q_, (o_, ev) in enumerate(objs):
+                want = [[float(t_) for t_ in sorted(ev)], [float(ev[t_][0]) for t_ in sorted(ev)],
+                        [float(ev[t_][1]) for t_ in sorted(ev)]]
+                got = core.call_impl(lambda: [o_.x[1:-1].tolist(), o_.y[1:-1].tolist(), o_.mp[1:-1].tolist()])
+                integ = core.call_impl(lambda: qq(lambda: [float(v) for v in o_.integral()]))
+                if not feq(got, want, 1e-12) or not feq(integ, [sum(want[1]), sum(want[2])], 1e-12):
+                    bad = bad or ("object %d" % q_, [got, integ], want)
+            if bad:
+                ctx.violate("DiscreteFunc history %r: %s no longer holds its own events" % (log, bad[0]), "df history",
+                            [repr(log)], expected=bad[2] if len(bad) > 2 else None, got=bad[1])
+                break
+        ctx.nontrivial(("c11hist", repr(log)))
     # nearly equal event times (2^-20 apart, same number of entries): one entry per distinct time
     for _ in range(ctx.n(300 if ctx.tier == "quick" else 3000)):
         k = r.randint(1, 4)
@@ -2716,6 +2835,11 @@ def c17(ctx):
         m = r.choice(mrts_grid(gg)[:3])
         mt = r.choice(maxtau_grid(gg) + [Fr(3, 4), Fr(2)])
         thr = Fr(r.randint(0, n - 1), n - 1) if r.random() < 0.7 else Fr(r.randint(0, 16), 16)
+        # ... and thresholds a hair (2^-30, 2^-17: far above rounding, far below 1/(N-1)) beside an attainable fraction: the
+        # comparison is exact, not "approximately greater"
+        hair = r.choice([Z, Z, Fr(1, 2 ** 30), Fr(-1, 2 ** 30), Fr(-1, 2 ** 17), Fr(1, 2 ** 17)])
+        if Z <= thr + hair <= ONE:
+            thr = thr + hair
         if sum(len(x) for x in L) >= 3:
             ctx.nontrivial(("c17", core.enc(TL), m, mt, thr))
         cases.append((70, [False, mt, m, thr, TL]))
@@ -3012,7 +3136,8 @@ def c19(ctx):
                 ps.save_spike_trains_to_txt(sts, fn, separator=sep, precision=prec)
                 # comment lines in between must be skipped
                 lines = open(fn).read().split("\n")
-                cm = r.choice(["#", "%", "//"])
+                # the marker is a plain string (a prefix test), whatever characters it is made of
+                cm = r.choice(["#", "%", "//", "#", ".", "|", "$", "*", "(", "[", "+", "?", "^", "\\", "c", "#!"])
                 with open(fn, "w") as f:
                     f.write(cm + " header\n")
                     for ln in lines[:-1]:
@@ -3118,6 +3243,31 @@ def c19(ctx):
                 ctx.violate("time series import != start+(k+1)*bin", "import_spike_trains_from_time_series",
                             repr((rows, str(start), str(binw))), expected=exp, got=res)
             cases.append((81, [start, binw, rows[0]]))
+        # ... and with start times / bin widths that are not binary fractions: every spike time is start + (k+1)*bin up to
+        # a few units in the last place (the unchanged code adds three rounded terms), the trains end on start + n*bin,
+        # and nothing raises, for short and for long recordings
+        for it in range(ctx.n(60 if ctx.tier == "quick" else 800)):
+            ncol = r.choice([1, 2, 3, 3, 5, 7, 10, 25, 100, 1000, 2000])
+            startf = r.choice([0.0, 0.0, 1000.0, -3.7, 0.3, 1e6])
+            binf = r.choice([0.1, 0.001, 1.0 / 3.0, 0.7, 0.05, 1e-4, 2.5])
+            row = [r.random() < 0.5 for _ in range(ncol)]
+            row[-1] = row[-1] or it % 2 == 0
+            with open(fn, "w") as f:
+                f.write(" ".join("1" if b else "0" for b in row) + "\n")
+            ctx.check()
+            ctx.nontrivial(("c19tsf", it, ctx.shard))
+            res = core.call_impl(lambda: ps.import_spike_trains_from_time_series(fn, startf, binf))
+            exact = [Fr(startf) + (k + 1) * Fr(binf) for k, b in enumerate(row) if b]
+            t_end = Fr(startf) + ncol * Fr(binf)
+            ulp = 2.0 ** -52 * max(1.0, abs(startf), abs(float(t_end)))
+            ok = (not isinstance(res, core.Err)) and len(res) == 1 and len(res[0][0]) == len(exact) \
+                and all(abs(Fr(x) - e) <= 6 * Fr(ulp) for x, e in zip(res[0][0], exact)) \
+                and abs(Fr(res[0][1]) - Fr(startf)) <= Fr(ulp) and abs(Fr(res[0][2]) - t_end) <= 6 * Fr(ulp)
+            if not ok:
+                ctx.violate("time series import (non-binary start / bin): times != start+(k+1)*bin within 6 ulp",
+                            "import_spike_trains_from_time_series", repr((ncol, startf, binf, [k for k, b in enumerate(row) if b][:5])),
+                            expected=[float(e) for e in exact[:5]] + [float(t_end)],
+                            got=res if isinstance(res, core.Err) else [res[0][0][:5], res[0][1], res[0][2]])
         ctx.corr(cases, lambda rid, a: True, functional=True)
         ctx.corr_values("save_lines", 90, [(a, iv, d) for r_, a, iv, d in io_items if r_ == 90], functional=True)
         ctx.corr_values("load_lines", 91, [(a, iv, d) for r_, a, iv, d in io_items if r_ == 91], functional=True)
